@@ -126,7 +126,7 @@ def run_level(ctx, rep):
                     h_reqs.append({"cmd": "srch.hedge", "e": [enc(float(v)) for v in ee], "gamma": enc(e["gamma"])})
                     h_owners.append((case, tag, e))
                     p = np.array(e["prob"])
-                    if abs(np.sum(p) - 1) > 1e-12 or np.any(p < e["gamma"] - 1e-15) or not (0 <= e["chosen"] < e["n"]):
+                    if not np.all(np.isfinite(p)) or abs(np.sum(p) - 1) > 1e-12 or np.any(p < e["gamma"] - 1e-15) or not (0 <= e["chosen"] < e["n"]):
                         rep.violation("hedge_distribution", SITE_H, f"strategy probabilities {p.tolist()} (gamma={e['gamma']}, chosen={e['chosen']}) are not a proper distribution with floor gamma; {tag}", case)
                 # nothing survived in any generation: nothing may be proposed
                 if es_out and all(n == 0 for n in es_out):
@@ -165,7 +165,7 @@ def run_level(ctx, rep):
             rep.disagree("Srch.esResult ~ ESSearch.__call__", f"model proposes z={m and m['z']} run z={e['z_out']}; {tag}", case)
     for (case, tag, e), m in zip(h_owners, ctx.driver.call_many(h_reqs)):
         mp = [float(Fraction(v)) for v in m["probs"]]
-        if any(abs(a - b) > 1e-12 for a, b in zip(mp, e["prob"])):
+        if any(not (abs(a - b) <= 1e-12) for a, b in zip(mp, e["prob"])):
             rep.disagree("Srch.hedgeProbs ~ ESSearchHedge probabilities", f"model {mp} run {e['prob']}; {tag}", case)
     return stats
 
@@ -191,7 +191,7 @@ def hedge_level(ctx, rep, only=None):
             gamma = rng.choice([0.125, 0.125, 0.05, 0.0, 1.0 / 6, 0.01])
             if n * gamma > 1:
                 gamma = 1.0 / n
-            beta = rng.choice([1.0, 1.0, 1e-3, 10.0, 0.1])
+            beta = rng.choice([1.0, 1.0, 1e-3, 10.0, 0.1, 100.0, 1000.0])      # hedge_beta = 1e-3 / tol_fun: tol_fun down to 1e-6
             kind = rng.choice(["initial", "leaders", "lopsided", "huge", "negative", "equal", "random"])
             if kind == "initial":
                 g = [10.0] + [0.0] * (n - 1)
@@ -240,9 +240,9 @@ def hedge_level(ctx, rep, only=None):
             rep.violation("hedge_distribution", SITE_H, f"hedge call failed with {chosen} for a portfolio of {c['n']} strategies, scores {c['g']}", c)
             continue
         mp = [float(Fraction(v)) for v in m["probs"]]
-        if len(mp) != len(p) or any(abs(a - b) > 1e-12 for a, b in zip(mp, p)):
+        if len(mp) != len(p) or any(not (abs(a - b) <= 1e-12) for a, b in zip(mp, p)):
             rep.disagree("Srch.hedgeProbs ~ ESSearchHedge probabilities", f"portfolio of {c['n']}, gamma={c['gamma']}, beta={c['beta']}, scores {c['g']}: model {mp} impl {p}", c)
-        if abs(sum(p) - 1) > 1e-12 or any(v < c["gamma"] - 1e-15 for v in p) or not (0 <= chosen < c["n"]):
+        if not all(math.isfinite(v) for v in p) or abs(sum(p) - 1) > 1e-12 or any(v < c["gamma"] - 1e-15 for v in p) or not (0 <= chosen < c["n"]):
             below += 1
             rep.violation("hedge_distribution", SITE_H, f"portfolio of {c['n']} strategies, gamma={c['gamma']}, beta={c['beta']}, scores {c['g']}: probabilities {p} (chosen {chosen}) are not a proper "
                           f"distribution with floor gamma", c)
